@@ -18,6 +18,8 @@
 mod sx;
 use sx::Sx;
 
+use erg_common::traits::Stream;
+
 use erg_parser::ast::Module;
 use erg_parser::lex::Lexer;
 use erg_parser::parse::{Parsable, SimpleParser};
@@ -79,7 +81,7 @@ fn parse(text: &str, simple: bool) -> (i128, usize, String) {
             let m: &Module = &art.ast;
             (0, 0, erase(&format!("{m:?}")))
         }
-        Err(iart) => match &iart.object {
+        Err(iart) => match &iart.ast {
             Some(m) => (1, iart.errors.len(), erase(&format!("{m:?}"))),
             None => (2, iart.errors.len(), format!("errors:{}", iart.errors.len())),
         },
